@@ -27,7 +27,7 @@ from .types import SQLBaseError as _SharedErr, FixPatch, TemplatedFile  # noqa: 
 PROP = "C20"
 
 Action = TEnum("NoqaAction", ["enable", "disable"])
-Code = TOpaque('RuleCode')      # rule codes: z3 native strings, only compared for equality (no type-invariant side facts)
+Code = StrN      # rule codes: z3 native strings, only compared for equality (no type-invariant side facts)
 NoQaDirective = ref_class("sqlfluff.core.rules.noqa:NoQaDirective", line_no=INT, line_pos=INT,
                           rules=TOpt(TList(Code)), action=TOpt(Action), raw_str=Text, used=BOOL)
 IgnoreMask = ref_class("sqlfluff.core.rules.noqa:IgnoreMask", _ignore_list=TList(NoQaDirective))
@@ -111,18 +111,13 @@ def range_off(line: INT, code: Code, ds: TList(NoQaDirective)) -> BOOL:
                for k in range(len(ds)))
 
 
-@spec(uninterpreted=True)
-def some_code() -> Code:
-    return ""
-
-
 @spec
 def AX(ds):
     """proof plumbing, always True: bound first in every clause below so that the defining axioms above are
     available outside every quantifier and short-circuit guard"""
-    a1 = names(None, some_code())
-    a2 = not plain_hit(0, some_code(), ds, 0)
-    a3 = range_off(0, some_code(), ds) or True
+    a1 = names(None, "")
+    a2 = not plain_hit(0, "", ds, 0)
+    a3 = range_off(0, "", ds) or True
     return a1 and a2 and a3
 
 
@@ -195,7 +190,7 @@ class filter_violations_single_line:
         return c1 and c2 and c3
 
     def ensures(self, violations, result, old):
-        ax = names(None, some_code())
+        ax = names(None, "")
         sub = all(any(result[i] is violations[k] for k in range(len(violations))) for i in range(len(result)))
         clean = all(not matched(self, result[i]) for i in range(len(result)))
         every = all(implies(not matched(self, violations[k]), any(result[i] is violations[k] for i in range(len(result))))
@@ -360,7 +355,7 @@ class ignore_masked_violations:
 @spec
 def warns_at(w, d):
     """w is the unused-noqa warning placed at directive d"""
-    return w.line_no == d.line_no and w.line_pos == d.line_pos and w.warning
+    return w.line_no == d.line_no and w.line_pos == d.line_pos and w.rule_code() == "NOQA" and w.warning
 
 
 @spec
@@ -387,6 +382,167 @@ class generate_warnings_for_unused:
                  for i in range(len(self._ignore_list)))
         c3 = all(before(result[a], result[b]) for a in range(len(result)) for b in range(a + 1, len(result)))
         return c1 and c2 and c3
+
+
+# ------------------------------------------------------------------ LintedFile.get_violations ("noqa off hides nothing")
+BaseSegment = ref_class("sqlfluff.core.parser.segments.base:BaseSegment")
+FileTimings = ref_class("sqlfluff.core.linter.linted_file:FileTimings")
+LintedFile = rec_class("sqlfluff.core.linter.linted_file:LintedFile", path=Text, violations=TList(SQLBaseError),
+                       timings=TOpt(FileTimings), tree=TOpt(BaseSegment), ignore_mask=TOpt(IgnoreMask),
+                       templated_file=TOpt(TemplatedFile), encoding=Text, source_patches=TOpt(TList(FixPatch)))
+
+
+@spec
+def masked(f, v):
+    """hidden by the file's noqa mask; no mask (noqa processing turned off) hides nothing"""
+    return hidden(v, f.ignore_mask._ignore_list) if f.ignore_mask is not None else False
+
+
+@spec
+def flag_dropped(v, rules, filter_ignore, filter_warning):
+    """removed by the explicit filters of the call, in the code's flag order: rules, ignore, warning"""
+    return (((len(rules) > 0 and v.rule_code() not in rules) if rules is not None else False)
+            or (filter_ignore and v.ignore) or (filter_warning and v.warning))
+
+
+@spec
+def dropped(f, v, rules, filter_ignore, filter_warning):
+    return flag_dropped(v, rules, filter_ignore, filter_warning) or (filter_ignore and masked(f, v))
+
+
+@contract("sqlfluff.core.linter.linted_file:LintedFile.get_violations", PROP)
+class get_violations:
+    """Restricted (requires) to types=None, fixable=None, warn_unused_ignores=False: `isinstance(v, types)` with a
+    symbolic class tuple and `v.fixable is fixable` on Optional[bool] are outside the engine's subset; the appended
+    warnings are generate_warnings_for_unused's contract."""
+    types = {"self": LintedFile, "rules": TOpt(TList(Code)), "types": (), "filter_ignore": BOOL, "filter_warning": BOOL,
+             "warn_unused_ignores": BOOL, "fixable": TOpt(BOOL), "violations": TList(SQLBaseError)}
+    ret = TList(SQLBaseError)
+    modifies = ["heap:NoQaDirective.used"]
+    opts = {"alphabet": "AB"}
+
+    def requires(self, rules, types, filter_ignore, filter_warning, warn_unused_ignores, fixable):
+        c1 = fixable is None and not warn_unused_ignores
+        c2 = distinct(self.violations)
+        return c1 and c2
+
+    def ensures(self, rules, types, filter_ignore, filter_warning, warn_unused_ignores, fixable, result):
+        vs = self.violations
+        ax = names(None, "")
+        sub = all(any(result[i] is vs[k] for k in range(len(vs))) for i in range(len(result)))
+        clean = all(not dropped(self, result[i], rules, filter_ignore, filter_warning) for i in range(len(result)))
+        every = all(implies(not dropped(self, vs[k], rules, filter_ignore, filter_warning), any(result[i] is vs[k] for i in range(len(result))))
+                    for k in range(len(vs)))
+        order = keeps_order(result, vs)
+        dis = distinct(result)
+        # turning noqa off hides nothing: without a mask only the explicit flags remove anything
+        off = implies(self.ignore_mask is None,
+                      all(implies(not flag_dropped(vs[k], rules, filter_ignore, filter_warning), any(result[i] is vs[k] for i in range(len(result))))
+                          for k in range(len(vs))))
+        return ax and sub and clean and every and order and dis and off
+
+
+# ------------------------------------------------------------------ `used` accounting with history (NATIVE-ONLY)
+# These clauses relate the post-state of `used` to its PRE-state for directives reached through a list
+# (`old.<list>[i].used`).  pyvc evaluates `old.<list>[i].<field>` in the CURRENT heap (only `old.<ref param>.<field>`
+# is read in the entry heap), so a symbolic reading would be vacuous.  They are therefore registered as kind="native"
+# contracts under alias keys (same function objects, reached through linted_file's import of IgnoreMask), never
+# compiled to SMT, and run with pyvc.replay.search from BOUNDED[1] (bounded, labelled as such).
+# Masks with an empty rule tuple are excluded here: they are the subject of the finding of the main contracts.
+@spec
+def nonempty_rules(ds):
+    return all(ds[i].rules is None or len(ds[i].rules) > 0 for i in range(len(ds)))
+
+
+@spec
+def hides(d, v):
+    """d is a directive that can hide v: a plain comment on v's line, or a disable at or before it, covering v's rule"""
+    return covers(d, v) and ((d.action is None and d.line_no == v.line_no)
+                             or (d.action == "disable" and d.line_no <= v.line_no))
+
+
+@spec
+def decides(ds, j, v):
+    """ds[j] is THE most recent enable/disable comment at or before v's line that covers v's rule"""
+    return (covers(ds[j], v) and ds[j].action is not None and ds[j].line_no <= v.line_no
+            and all(not (covers(ds[i], v) and ds[i].action is not None and ds[i].line_no <= v.line_no and later(ds, j, i))
+                    for i in range(len(ds))))
+
+
+@contract("sqlfluff.core.linter.linted_file:IgnoreMask.ignore_masked_violations", PROP, kind="native")
+class used_accounting_top:
+    types = {"self": IgnoreMask, "violations": TList(SQLBaseError)}
+
+    def requires(self, violations):
+        return distinct(violations) and distinct(self._ignore_list) and nonempty_rules(self._ignore_list)
+
+    def ensures(self, violations, result, old):
+        ds = self._ignore_list
+        ods = old.self._ignore_list
+        # never reset
+        mono = all(implies(ods[j].used, ds[j].used) for j in range(len(ds)))
+        # the only directive that could hide a hidden violation is marked
+        sole = all(implies(hidden(violations[k], ds) and hides(ds[j], violations[k])
+                           and all(implies(i != j, not hides(ds[i], violations[k])) for i in range(len(ds))), ds[j].used)
+                   for j in range(len(ds)) for k in range(len(violations)))
+        # a plain / disable directive marked by this call covered a violation this call hid (so: used => it covered a
+        # hidden violation of this or an earlier call, by induction over the calls)
+        just = all(implies(ds[j].action != "enable" and ds[j].used and not ods[j].used,
+                           any(hidden(violations[k], ds) and hides(ds[j], violations[k]) for k in range(len(violations))))
+                   for j in range(len(ds)))
+        return mono and sole and just
+
+
+@contract("sqlfluff.core.linter.linted_file:IgnoreMask._ignore_masked_violations_single_line", PROP, kind="native")
+class used_accounting_single_line:
+    types = {"violations": TList(SQLBaseError), "ignore_mask": TList(NoQaDirective)}
+
+    def requires(violations, ignore_mask):
+        return (all(ignore_mask[i].action is None for i in range(len(ignore_mask))) and distinct(violations)
+                and distinct(ignore_mask))
+
+    def ensures(violations, ignore_mask, result, old):
+        # exactly: used' == used or (it is the first directive, in list order, to match some violation)
+        return all(ignore_mask[j].used == (old.ignore_mask[j].used
+                                           or any(matched(ignore_mask[j], violations[k])
+                                                  and all(not matched(ignore_mask[i], violations[k]) for i in range(0, j))
+                                                  for k in range(len(violations))))
+                   for j in range(len(ignore_mask)))
+
+
+@contract("sqlfluff.core.linter.linted_file:IgnoreMask._ignore_masked_violations_line_range", PROP, kind="native")
+class used_accounting_line_range:
+    types = {"cls": _IgnoreMaskCls, "violations": TList(SQLBaseError), "ignore_mask": TList(NoQaDirective)}
+
+    def requires(violations, ignore_mask):
+        return (all(ignore_mask[i].action is not None for i in range(len(ignore_mask))) and distinct(violations)
+                and distinct(ignore_mask) and nonempty_rules(ignore_mask))
+
+    def ensures(violations, ignore_mask, result, old):
+        mono = all(implies(old.ignore_mask[j].used, ignore_mask[j].used) for j in range(len(ignore_mask)))
+        # exactly, for disable directives: used' == used or (it decided the state of some violation)
+        dis = all(implies(ignore_mask[j].action == "disable",
+                          ignore_mask[j].used == (old.ignore_mask[j].used
+                                                  or any(decides(ignore_mask, j, violations[k]) for k in range(len(violations)))))
+                  for j in range(len(ignore_mask)))
+        return mono and dis
+
+
+@contract("sqlfluff.core.linter.linted_file:IgnoreMask._should_ignore_violation_line_range", PROP, kind="native")
+class used_frame_should_ignore:
+    types = {"line_no": INT, "ignore_rules": TList(NoQaDirective)}
+
+    def requires(line_no, ignore_rules):
+        return (all(ignore_rules[a].line_no <= ignore_rules[b].line_no
+                    for a in range(len(ignore_rules)) for b in range(a + 1, len(ignore_rules))) and distinct(ignore_rules))
+
+    def ensures(line_no, ignore_rules, result, old):
+        # frame: only `enable` directives are ever written here, and only towards True
+        return all((ignore_rules[i].used == old.ignore_rules[i].used) if ignore_rules[i].action != "enable"
+                   else implies(old.ignore_rules[i].used, ignore_rules[i].used) for i in range(len(ignore_rules)))
+
+
+NATIVE_ONLY = [used_accounting_top, used_accounting_single_line, used_accounting_line_range, used_frame_should_ignore]
 
 
 # ------------------------------------------------------------------ native builders
@@ -477,11 +633,414 @@ def _violation_from_model(f):
 
 _replay.BUILDERS["SQLBaseError"] = _build_violation     # richer than the shared builder; still valid for C33
 _replay.BUILDERS["NoQaDirective"] = _build_directive
+_replay.BUILDERS.setdefault("BaseSegment", lambda rng, gen: None)     # never read by get_violations
+_replay.BUILDERS["FileTimings"] = lambda rng, gen: None
 _replay.BUILDERS["IgnoreMask"] = _build_mask
 _replay.FROM_MODEL["NoQaDirective"] = _directive_from_model
 _replay.FROM_MODEL["IgnoreMask"] = _mask_from_model
 _replay.FROM_MODEL["SQLBaseError"] = _violation_from_model
 
-TRUSTED = []
-NOT_COVERED = []
-MUTANTS = []
+
+# ================================================================== BOUNDED stand-ins
+def _failed(name, ident, function, detail):
+    return {"name": name, "id": ident, "kind": "bounded", "status": "failed", "function": function,
+            "backend": "CPython (bounded enumeration)", "detail": detail, "reproduced": True}
+
+
+# ------------------------------------------------------------------ [0] the textual front end
+# Executable grammar, written from docs/source/configuration/ignoring_configuration.rst:
+#     -- noqa                          ignore all errors on the line
+#     -- noqa: <ref>[,<ref>...]        ignore the referenced rules on the line
+#     -- noqa: disable=<ref>[,...] | all     from this line forward      (also spelled `noqa:disable=...`)
+#     -- noqa: enable=<ref>[,...] | all
+# "Comment lines can also have noqa" (`--some text -- noqa: LT05`): the directive is what follows the LAST `--`.
+# A reference is a code, name, group, alias or glob over those; a reference that matches nothing is kept literally
+# (PRS / TMP / LXR).  Anything else that starts with `noqa` is malformed (an error, not a directive).
+def spec_expand(ref, refmap):
+    import fnmatch
+    hit = [k for k in refmap if fnmatch.fnmatchcase(k, ref)]
+    return set().union(*[refmap[k] for k in hit]) if hit else {ref}
+
+
+def spec_parse(text, refmap):
+    """-> ("none",) | ("error",) | ("directive", rules: None | sorted tuple, action: None|"enable"|"disable")"""
+    tail = text.rsplit("--", 1)[-1].strip()
+    if not tail.startswith("noqa"):
+        return ("none",)
+    rest = tail[4:]
+    if rest == "":
+        return ("directive", None, None)
+    if rest[0] != ":":
+        return ("error",)
+    body = rest[1:].strip()
+    if body == "":
+        return ("directive", None, None)
+    if "=" in body:
+        action, _, rule_text = body.partition("=")
+        if action not in ("enable", "disable"):
+            return ("error",)
+    else:
+        action, rule_text = None, body
+        if rule_text in ("enable", "disable"):
+            return ("error",)
+    if rule_text == "all":
+        return ("directive", None, action)
+    out = set()
+    for ref in rule_text.split(","):
+        out |= spec_expand(ref.strip(), refmap)
+    return ("directive", tuple(sorted(out)), action)
+
+
+def spec_strip_comment(raw):
+    """comment segment text -> the text handed to the directive grammar (comment markers removed)"""
+    t = raw
+    for lead in ("--", "#"):
+        if t.startswith(lead):
+            t = t[len(lead):]
+            break
+    t = t.strip()
+    if t.endswith("*/"):
+        t = t[:-2].rstrip()
+    if t.startswith("/*"):
+        t = t[2:].lstrip()
+    return t
+
+
+SMALL_MAP = {"LT01": {"LT01"}, "LT02": {"LT02"}, "AL01": {"AL01"}, "CP01": {"CP01"},
+             "layout.spacing": {"LT01"}, "layout.indent": {"LT02"}, "aliasing.table": {"AL01"}, "capitalisation.keywords": {"CP01"},
+             "layout": {"LT01", "LT02"}, "aliasing": {"AL01"}, "capitalisation": {"CP01"}, "core": {"LT01", "AL01", "CP01"},
+             "all": {"LT01", "LT02", "AL01", "CP01"}, "L001": {"LT01"}, "L011": {"AL01"}, "L010": {"CP01"}}
+REFS = ["LT01", "AL01", "layout.spacing", "aliasing.table", "layout", "core", "all", "L001", "L011",     # code name group alias
+        "LT*", "L*", "*01", "layout.*", "AL0?", "[AC]*01",                                                    # globs
+        "ZZ99", "PRS", "TMP", "LXR", "lt01", "disable", ""]                                                   # unmatched
+MALFORMED = ["noqa?", "noqa LT01", "noqab", "noqa :LT01", "noqa: disable", "noqa:enable", "noqa: foo=LT01", "noqa: Disable=all",
+             "noqa: disable =all", "noqa=LT01"]
+NOT_DIRECTIVES = ["", "no qa", "NOQA", "xnoqa: LT01", "a noqa", "just a comment", "no", "noq"]
+
+
+def _directive_bodies(tier):
+    refs = REFS if tier == "thorough" else REFS
+    yield "noqa"
+    yield "noqa:"
+    yield "noqa: "
+    rule_lists = ["all"] + refs[:-1] + [a + sep + b for a in refs for b in refs for sep in (",", ", ")]
+    if tier == "thorough":
+        rule_lists += [a + "," + b + " , " + c for a in refs[:8] for b in refs[8:16] for c in refs[14:]]
+    for rl in rule_lists:
+        for sp in ("", " "):
+            yield "noqa:" + sp + rl
+            yield "noqa:" + sp + "disable=" + rl
+            yield "noqa:" + sp + "enable=" + rl
+    for x in MALFORMED + NOT_DIRECTIVES:
+        yield x
+
+
+def _show(r):
+    from sqlfluff.core.errors import SQLParseError
+    from sqlfluff.core.rules.noqa import NoQaDirective as D
+    if r is None:
+        return ("none",)
+    if isinstance(r, SQLParseError):
+        return ("error",)
+    if isinstance(r, D):
+        return ("directive", r.rules, r.action)
+    return ("?", repr(r))
+
+
+def bounded_front_end(tier, seed):
+    """_parse_noqa on every directive of the grammar x comment prefixes; from_tree (real lexer, inline and block
+    comments, _extract_ignore_from_comment) and from_source (regex path) on a sample; real reference map on a sample."""
+    import random
+    from sqlfluff.core import FluffConfig, Linter
+    from sqlfluff.core.parser import Lexer, BaseSegment
+    from sqlfluff.core.rules.noqa import IgnoreMask as M, NoQaDirective as D
+    rng = random.Random(seed)
+    fn = "sqlfluff.core.rules.noqa:IgnoreMask._parse_noqa"
+    failed, evals, nontrivial, samples = [], 0, set(), []
+    bodies = list(dict.fromkeys(_directive_bodies(tier)))
+    prefixes = ["", "-- ", "--", "some text -- ", "-- a -- b --", "x--y -- "]
+
+    def check(kind, text, got, want, extra=""):
+        nonlocal evals
+        evals += 1
+        if want[0] != "none":
+            nontrivial.add((kind, text))
+        if got != want:
+            if len(failed) < 5:
+                failed.append(_failed(f"C20/front-end/{kind}", f"C20/front-end/{kind}", fn,
+                                      {"comment": text, "got": repr(got), "grammar_spec": repr(want), "note": extra}))
+        elif len(samples) < 4 and want[0] == "directive" and want[1] and len(want[1]) > 1:
+            samples.append({"comment": text, "parsed": repr(got)})
+
+    # (a) _parse_noqa, exhaustively over the grammar, synthetic reference map
+    for b in bodies:
+        for pre in prefixes:
+            text = pre + b
+            r = M._parse_noqa(text, 3, 7, SMALL_MAP)
+            check("parse_noqa", text, _show(r), spec_parse(text, SMALL_MAP))
+            if isinstance(r, D) and (r.line_no, r.line_pos, r.raw_str, r.used) != (3, 7, text.rsplit("--", 1)[-1].strip(), False):
+                check("parse_noqa-fields", text, (r.line_no, r.line_pos, r.raw_str, r.used), "(3, 7, <tail>, False)")
+    # (b) the real reference map of the bundled rules: codes, names, groups, aliases, globs
+    cfg = FluffConfig(overrides={"dialect": "ansi"})
+    real_map = Linter(config=cfg).get_rulepack().reference_map
+    real_refs = ["LT01", "layout.spacing", "layout", "core", "L003", "L0*", "LT0[12]", "capitalisation.*", "AL*", "PRS", "TMP", "LXR", "nope"]
+    for a in real_refs:
+        for b2 in real_refs:
+            for act in ("", "disable=", "enable="):
+                text = "-- noqa: " + act + a + "," + b2
+                check("parse_noqa-real-map", text, _show(M._parse_noqa(text, 1, 0, real_map)), spec_parse(text, real_map))
+    # (c) comment segments from the real lexer -> from_tree / _extract_ignore_from_comment ; regex path -> from_source
+    lexer = Lexer(config=cfg)
+    dialect = cfg.get("dialect_obj")
+    pool = bodies if tier == "thorough" else rng.sample(bodies, min(len(bodies), 700))
+    forms = [("-- {}", True), ("--{}", True), ("-- text -- {}", True), ("/* {} */", False), ("/*{}*/", False), ("/*  {}  */", False)]
+    for b in pool:
+        if "\n" in b:
+            continue
+        for form, inline in forms:
+            comment = form.format(b)
+            sql = "SELECT 1\nFROM t " + comment + "\n"
+            want = spec_parse(spec_strip_comment(comment), SMALL_MAP)
+            toks, _ = lexer.lex(sql)
+            got_mask, got_errs = M.from_tree(BaseSegment(toks), SMALL_MAP)
+            ds = got_mask._ignore_list
+            got = ("none",) if not ds and not got_errs else (("error",) if got_errs and not ds else
+                                                             ("directive", ds[0].rules, ds[0].action) if len(ds) == 1 and not got_errs else ("?", repr(ds), repr(got_errs)))
+            check("from_tree", comment, got, want)
+            if want[0] == "directive" and len(ds) == 1 and (ds[0].line_no, ds[0].line_pos) != (2, 8):
+                check("from_tree-position", comment, (ds[0].line_no, ds[0].line_pos), (2, 8))
+            if inline:
+                m2, e2 = M.from_source_with_dialect(sql, dialect, SMALL_MAP)
+                d2 = m2._ignore_list
+                got2 = ("none",) if not d2 and not e2 else (("error",) if e2 and not d2 else
+                                                            ("directive", d2[0].rules, d2[0].action) if len(d2) == 1 and not e2 else ("?", repr(d2), repr(e2)))
+                check("from_source", comment, got2, want)
+                if want[0] == "directive" and len(d2) == 1 and d2[0].line_no != 2:
+                    check("from_source-line", comment, d2[0].line_no, 2)
+    return {"name": "noqa front end vs executable grammar", "bound": f"{len(bodies)} directive texts x {len(prefixes)} prefixes (_parse_noqa, exhaustive); "
+            f"{len(pool)} texts x {len(forms)} comment forms through the real lexer (from_tree / from_source); {len(real_refs) ** 2 * 3} texts on the real reference map",
+            "rule": "parsed (rules, action) / error / no-directive must equal spec_parse of the comment text (documented syntax, docs/source/configuration/ignoring_configuration.rst)",
+            "evaluations": evals, "distinct_nontrivial": len(nontrivial), "samples": samples, "failed": failed}
+
+
+# ------------------------------------------------------------------ [1] small-scope semantics incl. call histories
+def _ref_hidden(code, line, ds):
+    """independent reading of the property (a state machine, not the quantifier text of `hidden`)"""
+    if any(d.action is None and d.line_no == line and (d.rules is None or code in d.rules) for d in ds):
+        return True
+    state = None
+    for d in sorted((d for d in ds if d.action is not None and (d.rules is None or code in d.rules)), key=lambda d: d.line_no):
+        if d.line_no <= line:
+            state = d.action
+    return state == "disable"
+
+
+def bounded_mask_semantics(tier, seed):
+    """Every mask of <= K directives over 3 lines x {all, A, B} x {plain, enable, disable}, every set of <= 2 violations,
+    applied TWICE (second call with another violation set): result == filter by the independent reference AND by the
+    contract's `hidden`; `used` accounting across the two calls; unused warnings == directives never justified.
+    Then the native-only `used` contracts under random search."""
+    import itertools
+    import random
+    from sqlfluff.core.rules.noqa import IgnoreMask as M, NoQaDirective as D
+    from pyvc.dsl import CONTRACTS
+    rng = random.Random(seed)
+    fn = "sqlfluff.core.rules.noqa:IgnoreMask.ignore_masked_violations"
+    lines, codes = [1, 2, 3], ["A", "B"]
+    dir_opts = [(l, r, a) for l in lines for r in (None, ("A",), ("B",)) for a in (None, "enable", "disable")]
+    viol_opts = [(c, l) for c in codes for l in lines]
+    viol_sets = [vs for n in (1, 2) for vs in itertools.combinations(viol_opts, n)]
+    failed, evals, nontrivial, samples = [], 0, 0, []
+
+    def covers_(d, c):
+        return d.rules is None or c in d.rules
+
+    def can_hide(d, c, l):
+        return covers_(d, c) and ((d.action is None and d.line_no == l) or (d.action == "disable" and d.line_no <= l))
+
+    def one(combo, vs1, vs2):
+        nonlocal evals, nontrivial
+        ds = [D(l, 1 + 4 * i, r, a, "noqa") for i, (l, r, a) in enumerate(combo)]
+        mask = M(ds)
+        justified = [False] * len(ds)
+        for vs in (vs1, vs2):
+            objs = [make_violation(c, l) for (c, l) in vs]
+            before_used = [d.used for d in ds]
+            out = mask.ignore_masked_violations(list(objs))
+            evals += 1
+            want = [v for v in objs if not _ref_hidden(v.rule_code(), v.line_no, ds)]
+            want2 = [v for v in objs if not hidden(v, ds)]
+            if len(want) != len(objs):
+                nontrivial += 1
+            bad = None
+            if [id(x) for x in out] != [id(x) for x in want]:
+                bad = "result differs from the property's filter"
+            elif [id(x) for x in want] != [id(x) for x in want2]:
+                bad = "contract spec `hidden` differs from the independent reference reading"
+            hid = [v for v in objs if _ref_hidden(v.rule_code(), v.line_no, ds)]
+            for j, d in enumerate(ds):
+                if any(can_hide(d, v.rule_code(), v.line_no) for v in hid):
+                    justified[j] = True
+                if d.action != "enable" and d.used and not justified[j]:
+                    bad = bad or f"directive {j} marked used although it never covered a hidden violation"
+                if before_used[j] and not d.used:
+                    bad = bad or f"directive {j}: used flag reset"
+            for v in hid:
+                cov = [j for j, d in enumerate(ds) if can_hide(d, v.rule_code(), v.line_no)]
+                if len(cov) == 1 and not ds[cov[0]].used:
+                    bad = bad or f"directive {cov[0]} is the only one covering a hidden violation but is not marked used"
+            warned = [(w.line_no, w.line_pos) for w in mask.generate_warnings_for_unused()]
+            if warned != [(d.line_no, d.line_pos) for d in ds if not d.used]:
+                bad = bad or "unused warnings are not exactly the directives with used == False"
+            if bad and len(failed) < 5:
+                failed.append(_failed("C20/mask-semantics/small-scope", "C20/mask-semantics/small-scope", fn,
+                                      {"directives(line, rules, action)": list(combo), "violations(code, line) call 1": list(vs1),
+                                       "call 2": list(vs2), "what": bad, "returned": [(v.rule_code(), v.line_no) for v in out]}))
+            if bad:
+                return
+        if len(samples) < 3 and len(combo) == 3 and any(d.used for d in ds) and not all(d.used for d in ds):
+            samples.append({"directives": list(combo), "call1": list(vs1), "call2": list(vs2), "used": [d.used for d in ds]})
+
+    kmax = 3 if tier == "thorough" else 2
+    for k in range(1, kmax + 1):
+        for combo in itertools.product(dir_opts, repeat=k):
+            for vs1 in viol_sets:
+                one(combo, vs1, viol_sets[(hash((combo, vs1)) + seed) % len(viol_sets)])
+    if tier != "thorough":
+        for _ in range(25000):                       # a random slice of the K=3 space
+            combo = tuple(rng.choice(dir_opts) for _ in range(3))
+            one(combo, rng.choice(viol_sets), rng.choice(viol_sets))
+    # native-only `used` contracts (pre/post state of list elements), random search with the real function
+    tries = 30000 if tier == "thorough" else 4000
+    for c in NATIVE_ONLY:
+        r = _replay.search(c, seed, tries)
+        evals += r.get("admissible", 0)
+        nontrivial += r.get("distinct", 0)
+        if r.get("failure") or r.get("errors") or r.get("skipped"):
+            failed.append(_failed(f"C20/used-accounting/{c.name}", f"C20/used-accounting/{c.name}", c.key,
+                                  {"search": {k2: r.get(k2) for k2 in ("failure", "first_error", "skipped")}}))
+    return {"name": "mask semantics and `used` accounting, small scope with call histories",
+            "bound": f"all masks of <= {kmax} directives (3 lines x {{all,A,B}} x {{plain,enable,disable}}) x all sets of <= 2 violations, two calls each"
+                     + ("" if tier == "thorough" else " + 25000 random masks of 3 directives") + f"; {tries} random tries per native-only `used` contract",
+            "rule": "result == [v | not hidden(v)] (independent reference == contract spec); used marks monotone; used (plain/disable) => covered a hidden "
+                    "violation of this or an earlier call; sole coverer of a hidden violation => used; warnings == directives with not used",
+            "evaluations": evals, "distinct_nontrivial": nontrivial, "samples": samples, "failed": failed}
+
+
+# ------------------------------------------------------------------ [2] end to end: noqa off / disable_noqa_except
+E2E_SQL = [
+    "SELECT a  FROM tbl; -- noqa\nSELECT b  FROM tbl2;\n",
+    "SELECT a  FROM tbl; -- noqa: LT01\nSELECT b  from tbl2; -- noqa: CP01\n",
+    "SELECT a  FROM tbl; -- noqa: disable=all\nSELECT b  FROM tbl2;\nSELECT  1; -- noqa: enable=all\nSELECT  2;\n",
+    "/* noqa: disable=LT01 */\nSELECT a  FROM tbl;\nSELECT b  from tbl2;\n",
+    "SELECT a  FROM tbl; -- noqa: disable=AL01\nSELECT b  FROM tbl2 t;\n",
+    "SELECT 1 FROM (((  -- noqa: PRS\nSELECT  2\n",
+    "SELECT {{ foo( }} FROM t -- noqa: TMP\nSELECT  1\n",          # fatal templating failure: source-based fallback
+    "SELECT a  FROM tbl; -- noqa: \nSELECT  2; -- noqa:LT0*,capitalisation\n",
+]
+
+
+def bounded_end_to_end(tier, seed):
+    """(i) disable_noqa (without disable_noqa_except): the mask is None and exactly the violations of the same file
+    with its directives defused are reported.  (ii) disable_noqa_except=X: a directive naming only rules outside X hides
+    nothing (its references expand to no rule at all)."""
+    from sqlfluff.core import FluffConfig, Linter
+    failed, evals, nontrivial, samples = [], 0, 0, []
+    fn = "sqlfluff.core.linter.linter:Linter.lint_parsed"
+
+    def lint(sql, **ov):
+        lf = Linter(config=FluffConfig(overrides=dict(dialect="ansi", **ov))).lint_string(sql)
+        return lf, [(v.rule_code(), v.line_no, v.line_pos) for v in lf.get_violations()]
+
+    for sql in E2E_SQL:
+        lf_on, shown_on = lint(sql)
+        lf_off, shown_off = lint(sql, disable_noqa=True)
+        _, shown_defused = lint(sql.replace("noqa", "nqqa"))
+        evals += 1
+        if shown_on != shown_off:
+            nontrivial += 1
+        raw_off = [(v.rule_code(), v.line_no, v.line_pos) for v in lf_off.violations if not v.ignore and not v.warning]
+        if lf_off.ignore_mask is not None or shown_off != raw_off or shown_off != shown_defused:
+            failed.append(_failed("C20/end-to-end/disable_noqa", "C20/end-to-end/disable_noqa", fn,
+                                  {"sql": sql, "config": {"disable_noqa": True}, "mask": repr(lf_off.ignore_mask), "reported": shown_off,
+                                   "unfiltered": raw_off, "same file with directives defused": shown_defused}))
+        elif len(samples) < 2 and shown_on != shown_off:
+            samples.append({"sql": sql, "reported with noqa": shown_on, "with disable_noqa": shown_off})
+    # (ii) directives that name only rules outside disable_noqa_except
+    cases = [("SELECT a  FROM tbl; -- noqa: disable=AL01\nSELECT b  FROM tbl2;\n", "CP01"),
+             ("SELECT a  FROM tbl; -- noqa: AL01\nSELECT b  FROM tbl2;\n", "CP01"),
+             ("SELECT a  FROM tbl; -- noqa: disable=all\nSELECT b  FROM tbl2;\nSELECT  1; -- noqa: enable=LT01\nSELECT  2;\n", "CP01"),
+             ("SELECT a  FROM tbl; -- noqa: disable=LT01\nSELECT b  FROM tbl2;\n", "LT01")]
+    for sql, exc in cases:
+        lf, shown = lint(sql, disable_noqa_except=exc)
+        ds = lf.ignore_mask._ignore_list if lf.ignore_mask else []
+        # ground truth: every violation of the file (directives defused, so that nothing is dropped while crawling)
+        lf_all, _ = lint(sql.replace("noqa", "nqqa"), disable_noqa_except=exc)
+        want = [(v.rule_code(), v.line_no, v.line_pos) for v in lf_all.violations
+                if not v.ignore and not v.warning and not hidden(v, ds)]
+        evals += 1
+        nontrivial += 1
+        if shown != want:
+            failed.append(_failed("C20/end-to-end/disable_noqa_except-range-directive", "C20/end-to-end/disable_noqa_except-range-directive",
+                                  "sqlfluff.core.rules.noqa:IgnoreMask._ignore_masked_violations_line_range",
+                                  {"sql": sql, "config": {"disable_noqa_except": exc}, "parsed directives": repr(ds), "reported": shown,
+                                   "property (hidden iff a directive COVERING the rule ...)": want,
+                                   "cause": "noqa.py:311 `if not ignore.rules` treats the empty tuple (references that expand to no allowed rule) like None (= all rules)"}))
+    return {"name": "noqa off / disable_noqa_except, end to end through Linter.lint_string", "bound": f"{len(E2E_SQL)} files x 3 configurations + {len(cases)} disable_noqa_except cases",
+            "rule": "disable_noqa => ignore_mask is None and reported == unfiltered == same file with directives defused; with disable_noqa_except reported == [v | not hidden(v, parsed directives)]",
+            "evaluations": evals, "distinct_nontrivial": nontrivial, "samples": samples, "failed": failed}
+
+
+BOUNDED = [bounded_front_end, bounded_mask_semantics, bounded_end_to_end]
+
+SHARDS = {"sqlfluff.core.rules.noqa:IgnoreMask._ignore_masked_violations_line_range": 6,
+          "sqlfluff.core.linter.linted_file:LintedFile.get_violations": 4}
+TIMEOUT_MS = 20000
+
+TRUSTED = [
+    "SQLBaseError.rule_code / .fixable of every error class: deterministic, effect-free functions of the object",
+    "`v not in matched_violations` (noqa.py:48) uses SQLBaseError.__eq__ (same class, equal __dict__); the engine reads `in` on a list of "
+    "references as identity.  Assumed: violations that compare equal have the same line_no and rule_code() (true for the five concrete "
+    "error classes: __dict__ holds line_no and, for SQLLintError, the rule), hence 'equal to a matched violation' implies 'matched' and both "
+    "readings give the same filter.  The native search runs the real __eq__ on pools with many equal, distinct objects.",
+    "abstract view of NoQaDirective.action as None | 'enable' | 'disable' (what _parse_noqa produces: BOUNDED[0]); "
+    "rules as None | list of codes; directive lists are in file order (IgnoreMask.from_tree crawls the tree in source order), so "
+    "'most recent on the same line' is 'later in the list'",
+    "violations handed to the mask are pairwise distinct objects (precondition of the five filter contracts; "
+    "LintedFile.violations comes out of deduplicate_in_source_space)",
+    "defining axioms of the uninterpreted spec functions names / plain_hit / range_off (their bodies, verbatim); they read only "
+    "the fields line_no / rules / action of directives, which no function under contract writes",
+    "builtins.sorted is a stable permutation ordered by key (engine model)",
+]
+NOT_COVERED = [
+    "`used` accounting that needs the pre-state of list elements (monotone; used => covered a hidden violation of this or an earlier call; "
+    "sole coverer => used at the top level; exact marks of the helpers): native-only contracts + BOUNDED[1], not SMT "
+    "(pyvc reads old.<list>[i].<field> in the current heap, and a callee whose frame is 'only enable directives of this list' cannot be declared)",
+    "marks on `enable` directives (set when the directive closes a disable or is the first one after the violation's line) are code-specific; the "
+    "property is read as constraining the directives that can hide (plain, disable)",
+    "IgnoreMask.generate_warnings_for_unused: contract validated natively only (object construction inside a comprehension is outside the engine's subset); "
+    "the warning's description text is not specified",
+    "LintedFile.get_violations is proved for types=None, fixable=None, warn_unused_ignores=False",
+    "_parse_noqa / _extract_ignore_from_comment / from_tree / from_source / Linter.allowed_rule_ref_map / the disable_noqa switch in "
+    "lint_fix_parsed and lint_parsed: BOUNDED[0] and BOUNDED[2] only",
+    "BaseRule._process_lint_result calls ignore_masked_violations([lerr]) while crawling (one violation per call): covered as a client of the "
+    "top-level contract, not executed symbolically; cli.commands (the `parse`/render path) builds its own mask the same way",
+    "from_source reports line_pos as a 0-based offset, from_tree as a 1-based column (only the position of unused-noqa warnings is affected; C23)",
+]
+MUTANTS = [
+    ("single_line_next_line", "sqlfluff/core/rules/noqa.py", "                v.line_no == self.line_no\n", "                v.line_no == self.line_no + 1\n"),
+    ("none_matches_nothing", "sqlfluff/core/rules/noqa.py", "and (self.rules is None or v.rule_code() in self.rules)", "and (self.rules is not None and v.rule_code() in self.rules)"),
+    ("plain_forgets_used", "sqlfluff/core/rules/noqa.py", "            self.used = True\n            return [v for v in violations if v not in matched_violations]", "            return [v for v in violations if v not in matched_violations]"),
+    ("plain_drops_whole_line", "sqlfluff/core/rules/noqa.py", "return [v for v in violations if v not in matched_violations]", "return [v for v in violations if v.line_no != self.line_no]"),
+    ("range_same_line_excluded", "sqlfluff/core/rules/noqa.py", "            if ignore_rule.line_no > line_no:\n", "            if ignore_rule.line_no >= line_no:\n"),
+    ("enable_acts_as_disable", "sqlfluff/core/rules/noqa.py", "                last_ignore = None\n                ignore = False\n", "                last_ignore = None\n                ignore = True\n"),
+    ("range_unsorted", "sqlfluff/core/rules/noqa.py", "                key=lambda ignore: ignore.line_no,\n", "                key=lambda ignore: -ignore.line_no,\n"),
+    ("range_forgets_used", "sqlfluff/core/rules/noqa.py", "            elif last_ignore:\n                last_ignore.used = True\n", "            elif last_ignore:\n                pass\n"),
+    ("range_keeps_hidden", "sqlfluff/core/rules/noqa.py", "            if not ignore:\n                result.append(v)\n", "            if True:\n                result.append(v)\n"),
+    ("skip_range_step", "sqlfluff/core/rules/noqa.py", "        violations = self._ignore_masked_violations_line_range(violations, ignore_range)\n", "        pass\n"),
+    ("warn_for_used", "sqlfluff/core/rules/noqa.py", "            if not ignore.used\n", "            if ignore.used\n"),
+    ("unmatched_ref_dropped", "sqlfluff/core/rules/noqa.py", "                                expanded_rules.add(r)\n", "                                pass\n"),
+    ("block_comment_not_stripped", "sqlfluff/core/rules/noqa.py", "            comment_content = comment_content[2:].lstrip()\n", "            pass\n"),
+    ("noqa_off_still_masks", "sqlfluff/core/linter/linter.py", "        if not config.get(\"disable_noqa\") or disable_noqa_except:\n", "        if True:\n"),
+    ("get_violations_masks_unfiltered", "sqlfluff/core/linter/linted_file.py", "            violations = [v for v in violations if not v.ignore]\n            # Ignore any rules in the ignore mask\n            if self.ignore_mask:", "            violations = [v for v in violations if not v.ignore]\n        if True:\n            # Ignore any rules in the ignore mask\n            if self.ignore_mask:"),
+]
